@@ -387,6 +387,60 @@ func c02(c *Ctx) {
 			c.Violate("no-kill-site", key, p.InstrPos(call), "the unrecovered receive loop can reach this "+k+" site via "+strings.Join(reach[fn], " > ")+": one frame history ends frame processing for the whole sensor")
 		}
 	}
+	// (a') goroutines started while a frame is processed (per-datagram, per-connection handlers) are not under the
+	// receive loop; each installs its own recover (directly in the deferred function: recover() one call deeper
+	// returns nil) or cannot panic at all
+	g := p.VTA()
+	for _, fn := range fns {
+		if excluded(fn) {
+			continue
+		}
+		for _, b := range fn.Blocks {
+			for _, in := range b.Instrs {
+				gi, ok := in.(*ssa.Go)
+				if !ok {
+					continue
+				}
+				var sp *ssa.Function
+				switch v := gi.Call.Value.(type) {
+				case *ssa.Function:
+					sp = v
+				case *ssa.MakeClosure:
+					sp, _ = v.Fn.(*ssa.Function)
+				}
+				if sp == nil {
+					sp = gi.Call.StaticCallee()
+				}
+				key := "goroutine started in " + shortFn(fn) + " #" + fmt.Sprint(goOrdinal(fn, gi))
+				if sp == nil || sp.Blocks == nil {
+					c.Undecided("frame-goroutine-recovers", key, p.InstrPos(gi), "cannot resolve the function this goroutine runs")
+					continue
+				}
+				if hasRecover(sp) {
+					c.Ok("frame-goroutine-recovers", key, p.InstrPos(gi), "defers a function that itself calls recover() before doing anything else")
+					continue
+				}
+				probs, n := goroutinePanicSites(p, g, sp)
+				// decoders outside the repository and the standard library are not proved panic-free
+				for f := range unprotectedReach(g, sp) {
+					for _, call := range Calls(f) {
+						cal := call.Common().StaticCallee()
+						if cal != nil && !InRepo(cal) && strings.Contains(PkgOf(cal), ".") && !strings.Contains(PkgOf(cal), "go-logging") {
+							probs = append(probs, panicSite{"third-party call", p.InstrPos(call), "calls " + FuncShort(cal) + " (third-party code, not proved panic-free on frame bytes)"})
+						}
+					}
+				}
+				sort.SliceStable(probs, func(i, j int) bool { return probs[i].pos < probs[j].pos })
+				if len(probs) == 0 {
+					c.Ok("frame-goroutine-recovers", key, p.InstrPos(gi), fmt.Sprintf("no recover, but nothing in its same-goroutine reach (%d functions) can panic", n))
+					continue
+				}
+				why := probs[0].msg
+				c.Violate("frame-goroutine-recovers", key, p.InstrPos(gi), "this goroutine handles a received datagram/connection without an effective recover (recover() only stops a panic when the deferred function itself calls it; a call one level deeper returns nil), and it can panic: "+why+" at "+probs[0].pos+": one malformed payload ends the whole process")
+			}
+		}
+	}
+	c.Floor("frame-goroutine-recovers", 2, "handleUDP per-datagram goroutine, handleTCP per-connection goroutine")
 	// (b) may-nil
 	for _, fn := range fns {
 		if excluded(fn) {
